@@ -110,6 +110,8 @@ static void build_alphabet()
         std::string n = "b["; for(size_t k = 0; k < b.size(); ++k) n += (k ? " " : "") + std::to_string(b[k]); n += "]";
         add_scalar(n, [=] { return av_b(b); }, [=](Value &v) { v.bv = b; });
     }
+    // the empty blob in its other representation: length 0 and no data pointer (a zero-initialised blob, what a port hands out for "no data")
+    add_scalar("b[](null-data)", [] { AV a = av0('b'); a.val.b.len = 0; a.val.b.data = nullptr; return a; }, [](Value &v) { v.bv.clear(); });
     for(uint64_t x : {1ULL, 0ULL, 2ULL, 3ULL, 0x8000000000000000ULL})
         add_scalar(x == 1 ? "t:immediately" : "t" + std::to_string(x), [=] { return av_t(x); }, [=](Value &v) { v.tv = x; });
     add_scalar("T", [] { return av_bool(true); }, none);
@@ -151,9 +153,10 @@ static void build_alphabet()
 static void set_canon()
 {
     for(size_t k = 0; k < V.size(); ++k) {
-        std::string base = V[k].name.substr(0, V[k].name.find("]:"));
+        auto base_of = [](const std::string &n) { std::string b = n.substr(0, n.find("]:")); size_t q = b.find("(null-data)"); return q == std::string::npos ? b : b.substr(0, q); };
+        std::string base = base_of(V[k].name);
         V[k].canon = (int)k;
-        for(size_t j = 0; j < k; ++j) if(V[j].name.substr(0, V[j].name.find("]:")) == base) { V[k].canon = (int)j; break; }
+        for(size_t j = 0; j < k; ++j) if(base_of(V[j].name) == base) { V[k].canon = (int)j; break; }
     }
 }
 static bool same_value(int x, int y) { return V[x].canon == V[y].canon; }
